@@ -181,6 +181,9 @@ func verifOptions(dir string, tag string) Options {
 		o.FileIOType = fio.FileIOType(verifChoice("cfg-io", 2))
 		o.SyncStrategy = SyncStrategy(verifChoice("cfg-sync", 4-sw)) // cfgsweep 2: No / Always only (Threshold adds a symbolic BytesPerSync)
 	}
+	if pct := verifParam("ratio_pct"); pct > 0 {
+		o.DataFileMergeRatio = float32(pct) / 100
+	}
 	if o.IndexType == 0 {
 		o.IndexType = index.HashMap
 	}
